@@ -24,7 +24,8 @@ RULE = ('single-operation buckets (each public operation family first, then up t
         'eigenvalues; every case non-trivial), fwd:scales:* (each direction multiplied by its own power of two, ratios up to 2^54; non-trivial = '
         'scales differ); fwd:poison:* / rev:poison:* (leak amplifier: orders >= k >= 1 of one direction of every input - and its seed - are NaN or inf, '
         'base points finite; the other directions must stay finite and unchanged); direct:eigh1+pb_eigh1 (UTPM.eigh1 and its pullback called directly, '
-        'some directions with repeated eigenvalues)')
+        'some directions with repeated eigenvalues); direct:const-higher-rank (+ - * / and reflected with a constant ndarray of higher rank than the polynomial, '
+        'leading lengths P / 1 / 2 / 3; non-trivial = leading length == P)')
 ASSUMPTIONS = [
     'relation (1) to 1e-12 relative to max(1, max|coefficients of the register|); relation (2) to the same tolerance (an information leak moves results by far more than 1e-12)',
     'poison buckets: an exception raised because of the non-finite direction is a declared rejection (loud, not a silent leak)',
@@ -254,6 +255,44 @@ def eigh1_cases(draw, tier):
     return case
 
 
+_CONST_OPS = {'x+c': lambda x, c: x + c, 'c+x': lambda x, c: c + x, 'x-c': lambda x, c: x - c, 'c-x': lambda x, c: c - x,
+              'x*c': lambda x, c: x * c, 'c*x': lambda x, c: c * x, 'x/c': lambda x, c: x / c, 'c/x': lambda x, c: c / x}
+
+
+def prop_const_rank(case, stats):
+    """operators with a constant ndarray of HIGHER rank than the polynomial (leading lengths P, 1, 2, 3: the constant's leading
+    axis must never be matched against the direction axis): direction p of P vs direction p alone, and the slice-wise NumPy result"""
+    X = case['x']
+    c = case['c']
+    P = X.shape[1]
+    f = _CONST_OPS[case['op']]
+    with np.errstate(all='ignore'):
+        y = guard(lambda: f(UTPM(X.copy()), c.copy()))
+    if not isinstance(y, UTPM):
+        raise Violation('%s with a %s constant returned %s' % (case['op'], c.shape, type(y).__name__))
+    want = np.broadcast_shapes(X.shape[2:], c.shape)
+    if y.data.shape != X.shape[:2] + want:
+        raise Violation('%s, x shape %s, constant shape %s, P=%d: result data shape %s, NumPy broadcasting gives %s'
+                        % (case['op'], X.shape[2:], c.shape, P, y.data.shape, X.shape[:2] + want))
+    for p in range(P):
+        with np.errstate(all='ignore'):
+            yp = guard(lambda: f(UTPM(X[:, p:p + 1].copy()), c.copy()))
+        if yp.data.shape[2:] != y.data.shape[2:]:
+            raise Violation('%s: shape %s with %d directions, %s with direction %d alone' % (case['op'], y.data.shape, P, yp.data.shape, p))
+        M.close(y.data[:, p], yp.data[:, 0], TOL, '%s, constant of shape %s: direction %d of %d vs alone' % (case['op'], c.shape, p, P), stats)
+
+
+@st.composite
+def const_rank_cases(draw, tier):
+    D = draw(st.integers(1, 4))
+    P = draw(st.sampled_from([2, 3, 2]))
+    shp = tuple(draw(st.lists(st.integers(1, 3), min_size=0, max_size=2)))
+    lead = tuple(draw(st.lists(st.sampled_from([P, P, 1, 2, 3]), min_size=1, max_size=2)))
+    x = draw(gen.float_array((D, P) + shp, gen.nice_floats(0.5, 2.0), sparse=False))
+    c = draw(gen.float_array(lead + shp, gen.nice_floats(0.5, 2.0), sparse=False))
+    return {'x': x, 'c': c, 'op': draw(st.sampled_from(sorted(_CONST_OPS)))}
+
+
 SCALE_FAMS = ['eigh', 'qr', 'lu', 'inv', 'solve', 'svd', 'dot', 'outer', 'trace', 'det']      # (not chol: a a^T + c I is not scale tolerant)
 
 
@@ -317,6 +356,10 @@ def buckets(tier):
     for op in ('qr', 'eigh_val', 'eigh_fun'):      # (qr_full inverts R_0: no rank deficient support, it raises LinAlgError)
         bl.append(Bucket('fwd:degenerate:' + op, (lambda op=op: degenerate_cases(tier, op)), prop_forward,
                          {'quick': 60, 'thorough': 600}, nontrivial=(lambda case: True), classes=_deg_classes))
+    bl.append(Bucket('direct:const-higher-rank', (lambda: const_rank_cases(tier)), prop_const_rank, {'quick': 200, 'thorough': 2000},
+                     nontrivial=(lambda case: case['c'].shape[0] == case['x'].shape[1]),
+                     classes=(lambda case: ['op=' + case['op'], 'P=%d' % case['x'].shape[1], 'rank-diff=%d' % (case['c'].ndim - case['x'].ndim + 2),
+                                            'leading-length==P' if case['c'].shape[0] == case['x'].shape[1] else 'leading-length!=P'])))
     bl.append(Bucket('direct:eigh1+pb_eigh1', (lambda: eigh1_cases(tier)), prop_eigh1_direct, {'quick': 60, 'thorough': 600},
                      nontrivial=(lambda case: True), classes=_deg_classes))
     for fam in ('solve', 'solvec', 'inv', 'lu', 'qr', 'eigh', 'chol', 'det', 'special', 'unp'):
